@@ -73,3 +73,10 @@ Print Assumptions C14_flow_cost_is_vehicles_then_operating_cost.
 Theorem C14_unrestricted_statements_refuted : ~ stmt_decomposition_covers /\ ~ stmt_flow_cost_is_tour_cost.
 Proof. exact (conj decomposition_covers_refuted flow_cost_is_tour_cost_refuted). Qed.
 Print Assumptions C14_unrestricted_statements_refuted.
+
+(** the optimum exists: the covering circulation of every type is feasible for every loaded network and every slot
+    allotment within the track counts (so "minimum number of vehicles that can cover ..." is a minimum over a non-empty set) *)
+From RS Require Import LoadStmts LoadFacts EndToEndStmts CircStmts FlowFacts3.
+Theorem C14_covering_circulation_exists : stmt_circulation_feasible_loaded.
+Proof. exact circulation_feasible_loaded. Qed.
+Print Assumptions C14_covering_circulation_exists.
